@@ -222,6 +222,13 @@ CORPUS = [
     ("path", "double_slash", (b"///foo/bar?x=1", (), b"")),
     ("path", "double_slash", (b"//host:80/x", (), b"")),
     ("path", "double_slash", (b"//cdn.example.com/lib.js;v=1?x=1#f", (), b"")),
+    # form bodies whose Content-Type declares a charset (no BOMs, no raw high bytes: only what every reader agrees on)
+    ("urlenc", "charset_utf16", (b"/f", ((b"Content-Type", b"application/x-www-form-urlencoded; charset=UTF-16LE"),),
+                                 "a=1&b=two".encode("utf-16-le"))),
+    ("urlenc", "charset_utf16", (b"/f", ((b"content-type", b"application/x-www-form-urlencoded;charset=utf-16be"),),
+                                 "k=v&x=%41&y".encode("utf-16-be"))),
+    ("urlenc", "charset_latin1", (b"/f", ((b"Content-Type", b"application/x-www-form-urlencoded; charset=ISO-8859-1"),),
+                                  b"a=%E9&b=1")),
 ]
 
 
@@ -270,7 +277,7 @@ def project(msg, view):
     ct = [_s(v) for k, v in msg.headers.fields if k.lower() == b"content-type"]
     other = (msg.data.path, _headers_except(msg, (b"content-type", b"content-length")))
     if view == "urlenc":
-        return other, [tuple(x) for x in viewsref.urlencoded_pairs(_raw_body(msg))]
+        return other, [tuple(x) for x in viewsref.urlencoded_pairs(viewsref.form_bytes(ct[0] if ct else "", _raw_body(msg)))]
     parts = viewsref.multipart_parts(ct[0] if ct else "", _raw_body(msg))
     return other, ([(b"<unparsable>", _raw_body(msg))] if parts is None else [tuple(p) for p in parts])
 
@@ -371,7 +378,8 @@ def run(sc):
             pairs = [list(p) for p in op["pairs"]]
             rep = _rep(view, pairs, texts)
             rep_state = rep
-            ev = {"k": "assign", "view": view, "rep": rep, "pairs": pairs, "cls": _cls(view, pairs, texts), "exc": ""}
+            ev = {"k": "assign", "view": view, "rep": rep, "pairs": pairs, "cls": _cls(view, pairs, texts), "exc": "",
+                  "over": CORPUS[sc["prefill"]][1] if sc.get("prefill") is not None else ""}
             try:
                 val = _concrete(view, pairs, texts)
                 if op.get("as") == "tuple":
@@ -476,10 +484,20 @@ def _scen_sets(tier):
             cls = tuple(tuple(_cls(view, [p], {})[0]) for p in pl)
             deep = len(pl) == 0 or (len(pl) == 1 and pl[0] in pairs[:ndeep])
             scen.append({"kind": "fresh", "view": view, "pairs": tuple(pl), "cls": cls, "wcls": "assigned", "same": True,
-                         "depth": 2 if deep else 1, "wire": 0})
+                         "depth": 2 if deep else 1, "wire": 0, "base": 0, "bcls": ""})
+        # the same assignments over an EXISTING message of the corpus (state left in the message: old body, old
+        # Content-Type parameters, old query / params / cookies); only messages the code is known to rewrite faithfully
+        over = [lists[0], lists[1], (pairs[3], pairs[len(pairs) // 2])]
+        for i, (v2, wcls, _a) in enumerate(CORPUS):
+            if v2 != view or (v2, wcls) in CORPUS_NOT_SAME:
+                continue
+            for pl in (over if tier == "quick" else over + [(p,) for p in pairs[1:6]]):
+                cls = tuple(tuple(_cls(view, [p], {})[0]) for p in pl)
+                scen.append({"kind": "fresh", "view": view, "pairs": tuple(pl), "cls": cls, "wcls": "assigned", "same": True,
+                             "depth": 1, "wire": 0, "base": i + 1, "bcls": wcls})
     for i, (view, wcls, _a) in enumerate(CORPUS):
         scen.append({"kind": "wire", "view": view, "pairs": (), "cls": (), "wcls": wcls,
-                     "same": (view, wcls) not in CORPUS_NOT_SAME, "depth": 0, "wire": i + 1})
+                     "same": (view, wcls) not in CORPUS_NOT_SAME, "depth": 0, "wire": i + 1, "base": 0, "bcls": ""})
     return scen
 
 
@@ -489,7 +507,7 @@ class Check(core.PropertyCheck):
     MODEL = "Views"
     MON = "Mon_Views"
     REQUIRED_WITNESSES = tuple("assign_" + v for v in VIEWS) + tuple("writeback_" + v for v in VIEWS) + (
-        "rep", "unrep", "assign_empty", "dup_key", "reassign", "writeback_assigned", "writeback_wire", "writeback_nonempty",
+        "rep", "unrep", "assign_empty", "dup_key", "reassign", "assign_over_existing", "over_charset_utf16", "writeback_assigned", "writeback_wire", "writeback_nonempty",
         "mutate_add", "mutate_del", "mutate_setitem", "v_empty", "v_sep", "v_dq", "v_crlf", "v_space_edges", "v_non_ascii",
         "v_binary", "v_percent", "v_backslash", "k_non_ascii")
     REQUIRED_ACTIONS = ("Assign", "WriteBack", "WriteBackWire", "Add", "Del", "SetItem")
@@ -525,6 +543,8 @@ class Check(core.PropertyCheck):
         data = {"view": view, "ops": []}
         if sc["kind"] == "wire":
             data["wire"] = int(sc["wire"]) - 1
+        elif int(sc["base"]) > 0:
+            data["prefill"] = int(sc["base"]) - 1
         for name, args, _st in beh[1:]:
             if name == "Assign":
                 data["ops"].append({"op": "assign", "pairs": [list(p) for p in sc["pairs"]]})
